@@ -97,13 +97,29 @@ T = {
  "C18c": ("C18", "band mask with strict inequalities plus np.isclose at the edges (default rtol/atol)", "bin spacing below 1e-5 x cutoff (series of ~1e6 samples)", [], "scale-dependent: needed 2^20-sample band-limited series"),
  "C19f": ("C19", "integral_rms fast path for 'uniform' grids decided by np.allclose(diff, diff[0]) (absolute 1e-8 Hz)", "non-uniform grids with spacings below 1e-8 Hz", [], "unit-dependent: needed the frequency grids in nano-hertz units"),
 
+ "C01f": ("C01", "_gather_segments returns a reshaped view when the segments tile the record back to back; the order-0 NumPy kernels then remove the means in place, i.e. in the analyzer's record (and the caller's array)", "numpy backend, order 0, starts with diff == L, then any other bin on the same record", [], "C01 now notes every kernel call after which an input array has other bytes"),
+ "C02e": ("C02", "plan() thins bins with more than 2^22 starts with arr[::step] (last start dropped when (K-1) % step != 0)", "analyzer plan with a bin of K > 2^22 (N > 2^22, L tiny)", [], "size-gated: needed the N=2^23+5 analyzer plan of C02"),
+ "C03e": ("C03", "ltf_plan memoises its last 16 plans and returns the same dict object; plan() trims that dict in place for band=", "a band-limited ltf/lpsd analysis followed, in the same process, by an ltf/lpsd plan with the same seven numbers", [], "needed band+scheduler configurations in the pair histories"),
+ "C05f": ("C05", "band mask replaced by searchsorted + slicing", "user-supplied scheduler whose grid is not ascending, with band=", [], "needed the user-scheduler band part of C05"),
+ "C06d": ("C06", "NumPy kernels split K segments into 'balanced' blocks with rows = K // nblk when chunk*L > 2^25: the last K - nblk*rows slots stay uninitialised", "numpy backend, K*L > 2^25, K not a multiple of the block count", [], "size-gated: needed a K*L > 2^25 NumPy bin in C01 (odd K) and in C06"),
+ "C08e": ("C08", "_build_Q does its QR in float32 for L > 2^23", "order 1/2, one segment of more than 8.4e6 samples, a trend 1e8 times the signal", [], "NOT caught: beyond the largest stated segment length, and the derived worst-case rounding allowance at L ~ 1e7 exceeds the effect (DESIGN 9.11)"),
+ "C10e": ("C10", "plot(errors=True, sigma=k) scales the cached deviation array in place (err *= sigma)", "res.plot(which in psd/coh/csd/cf, errors=True, sigma != 1), then read the deviations", [], "needed plot calls as operations (C20/C14 histories) and after-plot grids in C10"),
+ "C11d": ("C11", "plot(errors=True) writes the analytic fallback for single-segment bins into the cached Gxx_emp_dev", "auto result, plot(errors=True), then read Gxx_emp_dev", [], "needed plot calls as operations and after-plot constructed results in C11"),
+ "C12e": ("C12", "Kaiser windows longer than 2^16 are interpolated from a 65537-point table (spurs of -185 dB at multiples of 65536 bins)", "L > 65536, psll > 186, analysis offset near m*65536 bins", [], "size-gated: needed the L=2^18 structured-offset probes of C12"),
+ "C13d": ("C13", "the nan_to_num copy is skipped for backend='numpy' (kernels 'sanitise' with the default nan_to_num: inf -> 1.8e308)", "backend numpy and a +-inf sample", [], ""),
+ "C14g": ("C14", "block-parallel reduction for K >= 2^18 omits the between-block scatter; block count = NUMBA_NUM_THREADS frozen at compile time", "K >= 2^18 and processes configured with different thread counts, each with its own kernel cache", [], "needed processes with different thread counts and separate caches (conf_procs)"),
+ "C15e": ("C15", "records stacked into one block whose dtype comes from the inputs only: a float output is truncated when all inputs are integer-typed", "all inputs int/bool dtype, non-integer output", [], "needed the dtype/container invariance part of C15"),
+ "C17g": ("C17", "white_noise.get_series(n >= 2^24) fills with four spawned child generators", "one request of >= 2^24 samples", [], "size-gated: needed the 2^24+1000 request of C17"),
+ "C19g": ("C19", "df_detrend reads each column from the working copy instead of the input frame", "inplace=False and a selected column named <other selected column> + suffix", [], "needed the chained frame (x, x_detrended) in C19"),
+ "C20g": ("C20", "cf_db = 10*log10(re^2 + im^2)", "|Hxy| above 1e154 or below 1e-162 (channels whose units differ by 160 decades)", [], "needed the unit-gap results of C20"),
+
 }
 
 
 def main():
     det = {}
     import re
-    for logf in ("/root/scratch/wave1_detect.log", "/root/scratch/wave2_detect.log", "/root/scratch/wave3_detect.log", "/root/scratch/wave4_detect.log", "/root/scratch/manual_detect.log", "/root/scratch/wave5_final_detect.log"):
+    for logf in ("/root/scratch/wave1_detect.log", "/root/scratch/wave2_detect.log", "/root/scratch/wave3_detect.log", "/root/scratch/wave4_detect.log", "/root/scratch/manual_detect.log", "/root/scratch/wave5_final_detect.log", "/root/scratch/wave6_detect.log", "/root/scratch/wave6b_detect.log"):
         if not os.path.exists(logf):
             continue
         sid = None
